@@ -19,21 +19,23 @@ pub fn read_files_in_folder(
 ) -> LocationFreeDiagnosticResult<Vec<(RelativePathToSourceFile, String)>> {
     read_dir_recursive(folder)?
         .into_iter()
-        .filter(|p| {
-            let extension = p.extension().and_then(|x| x.to_str());
-
-            matches!(
-                extension,
-                Some("ts") | Some("tsx") | Some("js") | Some("jsx")
-            )
-        })
-        .filter(|p| {
-            !p.to_str()
-                .expect("Expected path to be stringable")
-                .contains("__isograph")
-        })
+        .filter(|p| is_iso_literal_source_path(p))
         .map(|path| read_file(path, current_working_directory))
         .collect()
+}
+
+/// Whether iso literals are read from a file at this path. Watch mode must apply
+/// this to single-file events as well, so that it sees what a batch compile sees.
+pub fn is_iso_literal_source_path(p: &Path) -> bool {
+    let extension = p.extension().and_then(|x| x.to_str());
+
+    matches!(
+        extension,
+        Some("ts") | Some("tsx") | Some("js") | Some("jsx")
+    ) && !p
+        .to_str()
+        .expect("Expected path to be stringable")
+        .contains("__isograph")
 }
 
 pub fn read_file(
